@@ -177,6 +177,7 @@ static void rt_tcp_variant(const rt_ctx_t *ctx, const ares_dns_record_t *R, cons
   refdns_msg_t         D;
   char                 err[160];
   ares_dns_record_t   *R3 = NULL;
+  cd_rawpolicy_t       pol;
 
   if (b == NULL) {
     return;
@@ -227,7 +228,9 @@ static void rt_tcp_variant(const rt_ctx_t *ctx, const ares_dns_record_t *R, cons
                  p, consumed, flen, wlen, o, o > 8 ? o - 8 : 0, hx);
     /* fall through to see whether it at least decodes */
   }
-  if (refdns_decode_ex(data + p + 2, flen, NULL, NULL, &D, err, sizeof(err)) != 0) {
+  pol.flags = ctx->parse_flags; /* RRs the record holds as opaque bytes stay opaque here too */
+  if (refdns_decode_ex(data + p + 2, flen, ctx->parse_flags ? cd_treat_raw : NULL, &pol, &D, err,
+                       sizeof(err)) != 0) {
     snprintf(rule, sizeof(rule), "tcpbuf:%s:ref-decode", cls);
     rt_violation(ctx, rule, "p=%zu consumed=%zu: frame does not decode: %s", p, consumed, err);
     refdns_free(&D);
@@ -328,8 +331,9 @@ ref:
     if (refdns_decode_ex(W, wlen, NULL, NULL, &D, err, sizeof(err)) != 0) {
       snprintf(key, sizeof(key), "ref-decode-fails:%s", refdns_status_name(D.status));
       cd_hexdump(W, wlen > 200 ? 200 : wlen, hx, sizeof(hx));
-      rt_violation(ctx, key, "reference decoder rejects what ares_dns_write produced: %s; W(%zu)=%s",
-                   err, wlen, hx);
+      rt_violation(ctx, key, "reference decoder rejects what ares_dns_write produced: %s; last pointer "
+                   "followed: at %u -> %u; W(%zu)=%s", err, D.nptr ? D.ptr[D.nptr - 1].pos : 0,
+                   D.nptr ? D.ptr[D.nptr - 1].target : 0, wlen, hx);
     } else {
       size_t k;
       vh_count("rt_ref_compares");
@@ -421,6 +425,7 @@ typedef struct {
   int         mixed_style;
   size_t      nrr;
   uint32_t    typehash; /* order-independent hash of the RR types */
+  size_t      ub;       /* upper bound of the wire size of everything added so far */
 } bld_info_t;
 
 /* render a name in one of several legal presentation styles */
@@ -471,6 +476,7 @@ typedef struct {
   int           style;       /* presentation style of this record (or -1: per-name random) */
   int           allow_pool_add;
   uint32_t      uniq;        /* counter for unique labels */
+  int           rdata_unsafe_pct; /* share of RDATA names with arbitrary octets */
 } bld_names_t;
 
 static void bld_gen_name(vh_rng_t *r, bld_names_t *bn, refdns_name_t *n, int hostsafe, int unique_child)
@@ -509,7 +515,7 @@ static void bld_gen_name(vh_rng_t *r, bld_names_t *bn, refdns_name_t *n, int hos
       gen_name_random(r, n, hostsafe ? 0 : 1, 1 + (int)vh_below(r, 4));
     }
   }
-  if (bn->allow_pool_add && bn->npool < 8 && n->nlabels && vh_chance(r, 1, 3)) {
+  if (bn->allow_pool_add && hostsafe && bn->npool < 8 && n->nlabels && vh_chance(r, 1, 3)) {
     bn->pool[bn->npool++] = *n;
   }
 }
@@ -559,6 +565,7 @@ static int bld_add_rr(vh_rng_t *r, ares_dns_record_t *rec, bld_names_t *bn, bld_
   }
   info->nrr++;
   info->typehash += (uint32_t)type * 2654435761u;
+  info->ub += 257 + 10;
   keys = ares_dns_rr_get_keys(type, &nk);
   for (k = 0; keys && k < nk; k++) {
     ares_dns_rr_key_t key = keys[k];
@@ -601,7 +608,7 @@ static int bld_add_rr(vh_rng_t *r, ares_dns_record_t *rec, bld_names_t *bn, bld_
           break;
         case ARES_DATATYPE_NAME: {
           refdns_name_t t;
-          bld_gen_name(r, bn, &t, vh_chance(r, 1, 2), unique_names);
+          bld_gen_name(r, bn, &t, (int)vh_below(r, 100) >= bn->rdata_unsafe_pct, unique_names);
           st = ares_dns_rr_set_str(rr, key, bld_text(r, bn, &t, text, sizeof(text)));
           break;
         }
@@ -672,6 +679,40 @@ static int bld_add_rr(vh_rng_t *r, ares_dns_record_t *rec, bld_names_t *bn, bld_
     if (st != ARES_SUCCESS) {
       return -1;
     }
+    /* upper bound of what this key adds to the wire */
+    switch (ares_dns_rr_key_datatype(key)) {
+      case ARES_DATATYPE_NAME:
+        info->ub += 257;
+        break;
+      case ARES_DATATYPE_STR:
+        info->ub += 256;
+        break;
+      case ARES_DATATYPE_BIN:
+      case ARES_DATATYPE_BINP: {
+        size_t l = 0;
+        (void)ares_dns_rr_get_bin(rr, key, &l);
+        info->ub += l;
+        break;
+      }
+      case ARES_DATATYPE_ABINP: {
+        size_t l = 0;
+        (void)ares_dns_rr_get_bin(rr, key, &l);
+        info->ub += l + l / 255 + 2 + ares_dns_rr_get_abin_cnt(rr, key);
+        break;
+      }
+      case ARES_DATATYPE_OPT: {
+        size_t i2, cnt = ares_dns_rr_get_opt_cnt(rr, key);
+        for (i2 = 0; i2 < cnt; i2++) {
+          size_t vl = 0;
+          (void)ares_dns_rr_get_opt(rr, key, i2, NULL, &vl);
+          info->ub += 4 + vl;
+        }
+        break;
+      }
+      default:
+        info->ub += 16;
+        break;
+    }
   }
   return 0;
 }
@@ -732,8 +773,9 @@ static ares_dns_record_t *bld_record(vh_rng_t *r, bld_info_t *info)
 
   memset(info, 0, sizeof(*info));
   memset(&bn, 0, sizeof(bn));
-  bn.allow_pool_add = 1;
-  bn.style          = 0;
+  bn.allow_pool_add   = 1;
+  bn.style            = 0;
+  bn.rdata_unsafe_pct = 50;
   if (c < 12) {
     bn.style          = -1; /* a different legal spelling per name */
     info->mixed_style = 1;
@@ -763,8 +805,6 @@ static ares_dns_record_t *bld_record(vh_rng_t *r, bld_info_t *info)
     plant = "empty-caa-tag";
   } else if (c < 14) {
     plant = "uri-nonprint";
-  } else if (c < 20) {
-    plant = "raw-rdlen0";
   }
   if (plant) {
     plant_at = vh_below(r, (uint32_t)(n ? n : 1));
@@ -813,44 +853,46 @@ static size_t bld_measure(const ares_dns_record_t *rec)
   return n;
 }
 
-/* append filler RRs (TXT / raw / A with unique child owner names) until the written size is
- * exactly `target` (when reachable); late_names: introduce fresh shared suffixes beyond 16 KiB
- * and reuse them - the trigger of the 14-bit pointer finding */
-static ares_dns_record_t *bld_big(vh_rng_t *r, bld_info_t *info, size_t target, int late_names)
+/* A record whose written size is exactly `target` (when reachable): mixed RRs, then one raw RR
+ * owned by the root as exact filler.  Unless late_names, no name that could be pointed at later
+ * first appears beyond offset ~12000 (fresh names out there are unique children, never reused);
+ * with late_names, fresh shared suffixes are introduced beyond 16 KiB and reused - the trigger of
+ * the 14-bit pointer finding.  `coarse`: few RRs and large fillers (for sizes above 64 KiB). */
+static ares_dns_record_t *bld_big(vh_rng_t *r, bld_info_t *info, size_t target, int late_names, int coarse)
 {
   bld_names_t        bn;
   ares_dns_record_t *rec;
-  size_t             est, i;
-  unsigned char      buf[1024];
+  size_t             est, i, since = 0;
   int                late_added = 0;
 
   memset(info, 0, sizeof(*info));
   memset(&bn, 0, sizeof(bn));
-  bn.style          = 0;
-  bn.allow_pool_add = 1;
-  bn.npool          = 2;
+  bn.style            = 0;
+  bn.allow_pool_add   = 1;
+  bn.rdata_unsafe_pct = 1;
+  bn.npool            = 2;
   gen_name_random(r, &bn.pool[0], 0, 2);
   gen_name_random(r, &bn.pool[1], 0, 3);
   rec = bld_header(r, &bn, 0);
   if (rec == NULL) {
     return NULL;
   }
-  est = 40;
-  while (est + 1400 < target) {
+  info->ub = 12 + 257 + 4;
+  est      = info->ub; /* est is always >= the real size: measured value + upper bounds since */
+  while (est + 2500 < target && !(coarse && info->nrr >= 24)) {
     ares_dns_rec_type_t t;
     uint32_t            c = vh_below(r, 100);
-    /* beyond ~12 KiB no new shared suffix may appear unless this is the late-names variant */
+    size_t              before = info->ub;
+    int                 unique;
     bn.allow_pool_add = est < 12000;
-    if (late_names && est > 17000 && late_added < 3) {
+    if (late_names && est > 20000 && late_added < 3) {
       refdns_name_t fresh;
       gen_name_random(r, &fresh, 0, 2 + (int)vh_below(r, 2));
+      if (late_added == 0) {
+        bn.npool = 0; /* forget the early suffixes so that the late ones get reused */
+      }
       bn.pool[bn.npool < 8 ? bn.npool++ : 7] = fresh;
       late_added++;
-      /* drop the early suffixes so that the late ones get reused */
-      if (late_added == 1) {
-        bn.pool[0] = fresh;
-        bn.pool[1] = fresh;
-      }
     }
     if (c < 35) {
       t = ARES_REC_TYPE_TXT;
@@ -859,26 +901,36 @@ static ares_dns_record_t *bld_big(vh_rng_t *r, bld_info_t *info, size_t target, 
     } else {
       t = bld_types[vh_below(r, BLD_NTYPES)];
     }
-    if (bld_add_rr(r, rec, &bn, info, (ares_dns_section_t)(1 + vh_below(r, 3)), t,
-                   est >= 12000 && !late_names ? 1 : (late_names && est > 17000 ? vh_chance(r, 1, 2) : 0),
-                   NULL) != 0) {
+    unique = late_names ? (est > 20000 ? (int)vh_chance(r, 1, 3) : est >= 12000) : est >= 12000;
+    /* sections are written in order, so add them in order: the position of a name on the wire
+     * then follows the order in which names are introduced here */
+    if (bld_add_rr(r, rec, &bn, info,
+                   est * 3 < target ? ARES_SECTION_ANSWER : est * 3 < target * 2 ? ARES_SECTION_AUTHORITY
+                                                                                 : ARES_SECTION_ADDITIONAL,
+                   t, unique, NULL) != 0) {
       vh_count("bld_setter_refused");
     }
-    if ((info->nrr & 7) == 0 || est + 6000 > target) {
-      est = bld_measure(rec);
-      if (est == 0) {
-        return rec; /* unwritable; the caller will count it */
+    est += info->ub - before;
+    if (++since >= 16 && !coarse) {
+      size_t real = bld_measure(rec);
+      since = 0;
+      if (real == 0) {
+        return rec; /* unwritable; the caller counts it */
       }
-    } else {
-      est += 120;
+      est = real;
     }
   }
-  /* exact fill with one raw RR owned by the root: 1 + 10 + datalen octets */
+  /* exact fill: raw RRs owned by the root cost 1 + 10 + datalen octets each */
   est = bld_measure(rec);
-  if (est && est + 11 <= target) {
+  while (est && est + 11 <= target) {
     ares_dns_rr_t *rr  = NULL;
     size_t         len = target - est - 11;
-    unsigned char *big = (unsigned char *)malloc(len + 1);
+    unsigned char *big;
+    if (len > 65535 && !(coarse && vh_chance(r, 1, 3))) {
+      len = 30000 + vh_below(r, 30000); /* several fillers; one in three huge cases keeps a single
+                                         * RR whose RDATA exceeds 65535 octets */
+    }
+    big = (unsigned char *)malloc(len + 1);
     for (i = 0; i < len; i++) {
       big[i] = (unsigned char)(i * 7);
     }
@@ -889,8 +941,8 @@ static ares_dns_record_t *bld_big(vh_rng_t *r, bld_info_t *info, size_t target, 
       info->nrr++;
     }
     free(big);
+    est += 11 + len;
   }
-  (void)buf;
   if (late_names) {
     info->hazard = "big16k-late";
   }
